@@ -52,8 +52,9 @@ type rtState struct {
 }
 
 type mutexState struct {
-	locked  bool
-	readers int
+	locked   bool
+	readers  int
+	pendingW int // goroutines blocked in RWMutex.Lock
 }
 
 func (m *Machine) rtReset() {
